@@ -5521,6 +5521,41 @@ evhttp_uri_join(const struct evhttp_uri *uri, char *buf, size_t limit)
 	if (!uri || !buf || !limit)
 		return NULL;
 
+	/* Refuse what cannot be written down: the result would parse back
+	 * into different components (RFC 3986 sections 3 and 3.3). */
+#ifndef _WIN32
+	if (uri->unixsocket) {
+		/* "unix:" socket ":" stands for the whole authority */
+		if (uri->host || uri->port >= 0)
+			return NULL;
+		if (uri->path && uri->path[0] != '/' && uri->path[0] != '\0')
+			return NULL;
+		if (!uri->userinfo) {
+			/* an '@' in the first segment of the socket path
+			 * would be taken for the end of a userinfo */
+			const char *cp;
+			for (cp = uri->unixsocket;
+			    *cp && *cp != '/' && *cp != '?' && *cp != '#'; ++cp) {
+				if (*cp == '@')
+					return NULL;
+			}
+		}
+	} else
+#endif
+	if (!uri->host) {
+		/* userinfo and port are parts of an authority */
+		if (uri->userinfo || uri->port >= 0)
+			return NULL;
+		if (uri->path) {
+			/* without an authority the path cannot begin with "//"; */
+			if (uri->path[0] == '/' && uri->path[1] == '/')
+				return NULL;
+			/* without a scheme its first segment cannot contain ':' */
+			if (!uri->scheme && !path_matches_noscheme(uri->path))
+				return NULL;
+		}
+	}
+
 	tmp = evbuffer_new();
 	if (!tmp)
 		return NULL;
@@ -5703,6 +5738,9 @@ evhttp_uri_set_host(struct evhttp_uri *uri, const char *host)
 int
 evhttp_uri_set_unixsocket(struct evhttp_uri *uri, const char *unixsocket)
 {
+	/* the socket path is written as "unix:" path ":" */
+	if (unixsocket && strchr(unixsocket, ':'))
+		return -1;
 	URI_SET_STR_(unixsocket);
 	return 0;
 }
@@ -5710,7 +5748,7 @@ evhttp_uri_set_unixsocket(struct evhttp_uri *uri, const char *unixsocket)
 int
 evhttp_uri_set_port(struct evhttp_uri *uri, int port)
 {
-	if (port < -1)
+	if (port < -1 || port > 65535)
 		return -1;
 	uri->port = port;
 	return 0;
